@@ -175,7 +175,9 @@ class C05(Check):
                 elif kind == 'assign':
                     setattr(mobj, pname, dtgen.to_internal(di, op['v']))
                 elif kind == 'assign_same':
-                    setattr(mobj, pname, mobj.parameters[pname].value)
+                    cur = mobj.parameters[pname].value
+                    rec['same_v'] = dtgen.to_wire(di, cur)     # (with several tasks this is a read-modify-write)
+                    setattr(mobj, pname, cur)
                 elif kind == 'assign_invalid':
                     setattr(mobj, pname, op['v'])
                 elif kind in ('announce_err', 'announce_err_same'):
@@ -271,7 +273,7 @@ class C05(Check):
             if kind == 'assign':
                 return op['v'], None
             if kind == 'assign_same':
-                return keep, None
+                return (keep if single else rec.get('same_v', '<any>')), None
             if kind == 'assign_invalid':
                 return keep, ('<badvalue>', '')
             if kind in ('announce_err', 'announce_err_same'):
